@@ -36,6 +36,10 @@ def emitted_value(html: str, key: str) -> str | None:
     return "\0unparsable\0" + html
 
 
+class StrSub(str):
+    """a str subclass instance (plain text as far as the library is concerned)"""
+
+
 def merged_ok(combo, got) -> bool:
     """property-level reading of a merged value: the operands' renderings joined by single spaces, where a plain
     operand may be written with ANY character references that decode to its special characters"""
@@ -50,7 +54,7 @@ def merged_ok(combo, got) -> bool:
             if not got.startswith(" ", pos):
                 return False
             pos += 1
-        if o[0] == "p":
+        if o[0] in ("p", "s"):
             pos = subst.consume_escape(o[1], got, pos, subst.ATTR_SPECIALS)
             if pos is None:
                 return False
@@ -105,7 +109,9 @@ def run(tier: str) -> int:
     # merging: the statement evaluated literally on the real code, for every entry point
     if ck.driver is not None:
         vals = ["a", 'a"b', "x'y", "&", "<>", "l\r\nm", "", "&amp;", "é ;"]
-        ops_pool = [("p", v) for v in vals] + [("h", v) for v in ("x", "<b>", 'q"', "")] + [("t",), ("n", 7), ("n", 1.5), ("none",), ("f",)]
+        # ("s", v): an instance of a str SUBCLASS (user token classes, markupsafe-style strings): plain text like any str
+        ops_pool = ([("p", v) for v in vals] + [("h", v) for v in ("x", "<b>", 'q"', "")] + [("t",), ("n", 7), ("n", 1.5), ("none",), ("f",)]
+                    + [("s", v) for v in ("tok", 'a"b', "x'y", "l\nm", "&<")])
         maxk = 3 if tier == "quick" else 4
         combos = []
         for k in range(1, maxk + 1):
@@ -115,14 +121,14 @@ def run(tier: str) -> int:
                 combos += [tuple(rng.choice(ops_pool) for _ in range(k)) for _ in range(ck.budget(1500, 20000))]
         ck.exhaustive_scopes.append({"scope": "merge shapes: all operand lists of length <= 2 over 18 operand values (plain/HTML/True/number/None/False) x 5 entry points",
                                      "n": len(ops_pool) + len(ops_pool) ** 2, "exhaustive": True})
-        esc_need = sorted({o[1] for c in combos for o in c if o[0] == "p"})
+        esc_need = sorted({o[1] for c in combos for o in c if o[0] in ("p", "s")})
         esc = dict(zip(esc_need, [subst.ds_(x) for x in ck.driver.run(["spec_escape T " + es(s) for s in esc_need])]))
 
         def real(o):
-            return {"p": lambda: o[1], "h": lambda: HTML(o[1]), "t": lambda: True, "n": lambda: o[1], "none": lambda: None, "f": lambda: False}[o[0]]()
+            return {"p": lambda: o[1], "s": lambda: StrSub(o[1]), "h": lambda: HTML(o[1]), "t": lambda: True, "n": lambda: o[1], "none": lambda: None, "f": lambda: False}[o[0]]()
 
         def emission(o):
-            return {"p": lambda: esc[o[1]], "h": lambda: o[1], "t": lambda: "", "n": lambda: str(o[1])}.get(o[0], lambda: None)()
+            return {"p": lambda: esc[o[1]], "s": lambda: esc[o[1]], "h": lambda: o[1], "t": lambda: "", "n": lambda: str(o[1])}.get(o[0], lambda: None)()
 
         n_merge = 0
         for combo in combos:
@@ -140,13 +146,13 @@ def run(tier: str) -> int:
                         t = Tag("div")
                         t.attrs.update(*[{key: real(o)} for o in combo])
                     elif entry == "add_class":
-                        if any(o[0] not in ("p", "h") for o in combo):
+                        if any(o[0] not in ("p", "h", "s") for o in combo):
                             continue
                         t = Tag("div")
                         for o in combo:
                             t.add_class(real(o))
                     else:
-                        if any(o[0] not in ("p", "h") or not o[1].endswith(";") for o in combo):
+                        if any(o[0] not in ("p", "h", "s") or not o[1].endswith(";") for o in combo):
                             continue
                         t = Tag("div")
                         for o in combo:
@@ -156,7 +162,7 @@ def run(tier: str) -> int:
                     got = f"\0raised {type(e).__name__}: {e}"
                 n_merge += 1
                 ck.holds_checked += 1
-                nt = any(o[0] == "p" and set(o[1]) & set(ALPHA[:-1]) for o in combo)
+                nt = any(o[0] in ("p", "s") and set(o[1]) & set(ALPHA[:-1]) for o in combo)
                 if nt:
                     ck.distinct_nontrivial += 1
                 if got != want and not merged_ok(combo, got):
